@@ -138,9 +138,9 @@ fn main() {
             "verify reports damage by returning Ok(false) or an error; only Ok(true) on a damaged artifact is a failure",
         ],
         parts: vec![
-            PropPart::new("seq", 60_000, 1_500_000, seq::seq_strategy, seq::seq_check).boxed(),
+            PropPart::new("seq", 100_000, 2_000_000, seq::seq_strategy, seq::seq_check).boxed(),
             Box::new(sleep_part()),
-            PropPart::new("sched", 12_000, 150_000, sched::sched_strategy, sched::sched_check).shrink_iters(1200).boxed(),
+            PropPart::new("sched", 20_000, 400_000, sched::sched_strategy, sched::sched_check).shrink_iters(1200).boxed(),
             Box::new(sched::stress_part()),
         ],
         children: vec![],
